@@ -186,7 +186,9 @@ def rule_linelen(ctx, res, sizes):
                                     len(sw['note'])), sr['func'].loc)
     mw = codecs.music_writer_layout(ctx)
     mr = codecs.music_reader_layout(ctx)
-    spaces = [x for x in mw['line'] if x == ('lit', b' ')]
+    spaces = max(([x for x in l if x == ('lit', b' ')]
+                  for (_a, l) in mw['lines']),
+                 key=lambda v: abs(len(v) - 1))
     res.check(len(spaces) == 1 and mr['sep'] == b' ' and mr['filter'],
               'R-C03-linelen', mr['func'].qual,
               'music: exactly one space separates flags and channels', '',
@@ -279,18 +281,24 @@ def rule_layout(ctx, res):
     mw = codecs.music_writer_layout(ctx)
     mr = codecs.music_reader_layout(ctx)
     # writer digits after the space are channel digits 0..7; flag digits 0,1
-    wm = {}
-    pos = 0
-    side = 'F'
-    for item in mw['line']:
-        if isinstance(item, tuple) and item[0] == 'lit':
-            if item[1] == b' ':
-                side, pos = 'C', 0
-            continue
-        for b, c in enumerate(item):
-            if c and c[0] == 'self._data':
-                wm[(c[1], c[2])] = (side, pos, b)
-        pos += 1
+    def writer_map(line):
+        wm = {}
+        pos = 0
+        side = 'F'
+        for item in line:
+            if isinstance(item, tuple) and item[0] == 'lit':
+                if item[1] == b' ':
+                    side, pos = 'C', 0
+                continue
+            for b, c in enumerate(item):
+                if c and c[0] == 'self._data':
+                    wm[(c[1], c[2])] = (side, pos, b)
+            pos += 1
+        return wm
+    # every path through the writer must give the same map; report the one
+    # that carries the fewest bits
+    maps = [writer_map(l) for (_a, l) in mw['lines']]
+    wm = min(maps, key=len)
     rm = {}
     for k, bv in enumerate(mr['bytes']):
         for bit in range(8):
